@@ -9,6 +9,9 @@
 //!       Listener::new(address) in this process' environment; report what was adopted/bound
 //!   vhelper pump <address>
 //!       byte pump stdin/stdout <-> socket
+//!   vhelper actclient <specfile> <dumpfile> <outfile>
+//!       close every descriptor from 3 up, then Connection::with_activate (so that the listener of
+//!       varlink_exec IS descriptor 3 in the parent: the clear-close-on-exec branch), one GetInfo call
 #![allow(dead_code, unused_imports)]
 
 #[path = "../rng.rs"]
@@ -101,6 +104,47 @@ fn main() {
             let address = args[2].clone();
             let out = args[3].clone();
             let line = world::listener_report(&address);
+            let tmp = format!("{}.tmp", out);
+            std::fs::write(&tmp, line).unwrap();
+            std::fs::rename(&tmp, &out).unwrap();
+        }
+        "actclient" => {
+            let spec = args[2].clone();
+            let dump = args[3].clone();
+            let out = args[4].clone();
+            for fd in 3..256 {
+                unsafe {
+                    libc::close(fd);
+                }
+            }
+            let exe = std::env::current_exe().unwrap().to_string_lossy().to_string();
+            let cmd = format!("{} serve {} $VARLINK_ADDRESS --idle 2 --dump {}", exe, spec, dump);
+            let line = match varlink::Connection::with_activate(&cmd) {
+                Err(e) => format!("(fail x{})", sx::hex(format!("{:?}", e.kind()).as_bytes())),
+                Ok(conn) => {
+                    let child = conn.write().unwrap().child.take();
+                    let address = conn.read().unwrap().address();
+                    let r = {
+                        use varlink::OrgVarlinkServiceInterface;
+                        let mut c = varlink::OrgVarlinkServiceClient::new(conn.clone());
+                        c.get_info().map(|i| i.vendor.to_string())
+                    };
+                    let pid = child.as_ref().map(|c| c.id()).unwrap_or(0);
+                    if let Some(mut c) = child {
+                        // leave the service a moment to write its dump, then stop it
+                        let t0 = std::time::Instant::now();
+                        while !std::path::Path::new(&dump).exists() && t0.elapsed() < std::time::Duration::from_secs(2) {
+                            std::thread::sleep(std::time::Duration::from_millis(2));
+                        }
+                        let _ = c.kill();
+                        let _ = c.wait();
+                    }
+                    match r {
+                        Ok(v) => format!("(ok x{} {} x{})", sx::hex(v.as_bytes()), pid, sx::hex(address.as_bytes())),
+                        Err(e) => format!("(callfail x{})", sx::hex(format!("{:?}", e.kind()).as_bytes())),
+                    }
+                }
+            };
             let tmp = format!("{}.tmp", out);
             std::fs::write(&tmp, line).unwrap();
             std::fs::rename(&tmp, &out).unwrap();
